@@ -51,6 +51,8 @@ func NewGenTape(state uint64) *Tape { return &Tape{state: state} }
 func NewReplayTape(vals []uint64) *Tape { return &Tape{in: vals, replay: true} }
 
 // Choose returns a value in [0,n). n<=1 consumes nothing.
+//
+//go:norace
 func (t *Tape) Choose(n int) int {
 	if n <= 1 {
 		return 0
@@ -71,11 +73,15 @@ func (t *Tape) Choose(n int) int {
 }
 
 // Bool is true with probability num/den; false is the simple alternative.
+//
+//go:norace
 func (t *Tape) Bool(num, den int) bool {
 	return t.Choose(den) >= den-num
 }
 
 // Range returns a value in [lo,hi] (inclusive); lo is the simple alternative.
+//
+//go:norace
 func (t *Tape) Range(lo, hi int) int {
 	if hi <= lo {
 		return lo
@@ -86,6 +92,8 @@ func (t *Tape) Range(lo, hi int) int {
 // Weighted picks an index with probability proportional to its weight; index 0
 // should be the simplest alternative. Zero-weight entries are never chosen
 // (unless all are zero, then 0).
+//
+//go:norace
 func (t *Tape) Weighted(w ...int) int {
 	total := 0
 	for _, x := range w {
